@@ -35,8 +35,27 @@ def decode_op(op):
     return {"op": op}
 
 
+# Known findings identified by CALL SITE: a Go stack overflow (fatal, not recoverable) whose goroutine trace
+# recurses in one of these functions, reached with a self-containing array/hash (built with aset/hset).
+# The printer, Type() and the macro expander have cycle/depth guards since fixes 2c156d1, d2a50f2, 1a3d12c;
+# deep comparison and the JSON/msgpack conversion do not.
+OVERFLOW_SITES = {"(*Zlisp).Compare": "compare", "(*Zlisp).compareArray": "compare",
+                  "SexpToJson": "tojson", "(*SexpArray).jsonArrayHelper": "tojson", "jsonHashHelper": "tojson",
+                  "(*SexpHash).jsonHashHelper": "tojson"}
+_overflow_key = {}
+
+
+def note_overflow_sites(rows):
+    for op, impl, _, _ in rows:
+        m = re.search(r"HOSTDEATH rc=\d+ runtime: goroutine stack exceeds.* in (\S+)$", impl)
+        if m and m.group(1) in OVERFLOW_SITES:
+            _overflow_key[op] = "crash stack-overflow in " + OVERFLOW_SITES[m.group(1)] + " on a self-containing value"
+
+
 def canon_key(op):
     """known findings are keyed by the text and the configuration, not by the wire form"""
+    if op in _overflow_key:
+        return _overflow_key[op]
     d = decode_op(op)
     if "text" in d:
         return "crash %s %s :: %s" % (d["kind"], d["cfg"], d["text"])
@@ -285,6 +304,7 @@ def run(rep):
         else:
             fixed.append((op, impl, model, spec))
     jrows, jst = judge_crash(fixed, stats)
+    note_overflow_sites(jrows)
     bad_spec, bad_model = V.correspondence(rep, "crash", jrows, stats, keyfn=canon_key, max_report=6,
                                            nontrivial=lambda op, impl: "E:ok" in impl or "c=" in impl)
     rep.coverage["channels"]["crash"].update(jst)
